@@ -472,6 +472,17 @@ def clause_premises(R):
     ctab = [t for t in ctab if t and len(t) == 13]
     R.check(len(ctab) >= 1 and all(t == FACCT_C for t in ctab), "C10-premise", "approx_exp constants", "the 13 polynomial coefficients equal the specification's (shared with C09)", key="prem|facct")
     c04.clause_gs_norm(R, rule="C10-premise")
+    # the integer sampler under every leaf: all rule instances of C09 (wiring of sampler_z, base sampler, exponential, their
+    # integer asserts) except its recorded known findings, which stay C09's
+    from fv.harness import Result, known_matcher
+    R9 = Result("C09", R.tier)
+    c09.run(R9)
+    mk, _ = known_matcher("C09")
+    bad9 = [o for o in R9.obl if o["status"] == "violation" and mk(o) is None]
+    ff = [(n, m, f) for (n, m, f) in R9.floors if m < f]
+    R.check(not bad9 and not ff, "C10-premise", "integer sampler (rule instances of C09)",
+            f"{sum(1 for o in R9.obl if o['status'] == 'discharged')} rule instances on sampler_z / base_sampler / ber_exp / approx_exp hold",
+            "; ".join(f"[{o['rule']}] {o['site']}: {o['detail']}"[:300] for o in bad9[:3]) + (f" floors {ff}" if ff else ""), key="prem|sampler")
 
 
 def run(R):
